@@ -794,7 +794,14 @@ pub fn run(cli: Cli) -> ! {
         replay(&cli, &case);
     }
     let rep = Report::new("C09", cli.tier, "exploration");
-    let cx = Ctx { rep: &rep, evals: AtomicU64::new(0), distinct: AtomicU64::new(0) };
+    core(&rep, cli.tier.thorough());
+    rep.finish()
+}
+
+/// The enumeration over the packet crate (everything but the replay of one case). netsim's C09 runs it and adds
+/// the framing and decoding that happen inside a connection.
+pub fn core(rep: &Report, thorough: bool) {
+    let cx = Ctx { rep, evals: AtomicU64::new(0), distinct: AtomicU64::new(0) };
 
     packets(&cx);
     let packet_cases = cx.evals.load(Ordering::Relaxed);
@@ -803,7 +810,7 @@ pub fn run(cli: Cli) -> ! {
 
     // ---- VarInt
     let varint_count = AtomicU64::new(0);
-    if cli.tier.thorough() {
+    if thorough {
         let chunks = 4096usize;
         par_for(chunks, |c| {
             let lo = (c as u64) << 20;
@@ -852,7 +859,7 @@ pub fn run(cli: Cli) -> ! {
     rep.set("distinct_nontrivial", json!(cx.distinct.load(Ordering::Relaxed) + vi + dom.len() as u64));
     rep.set("packet_cases", json!(packet_cases));
     rep.set("varints", json!(vi));
-    rep.set("varints_all_2_32", json!(cli.tier.thorough()));
+    rep.set("varints_all_2_32", json!(thorough));
     rep.set("varlongs", json!(dom.len()));
     rep.set("exhaustive", json!(true));
     rep.set(
@@ -866,5 +873,4 @@ pub fn run(cli: Cli) -> ! {
     rep.sample(json!({"packet": "Transfer", "value": {"host": "2001:db8::1", "port": 65535}, "reference_body_hex": hex(&W::new().string("2001:db8::1").varint(65535).done())}));
     rep.assume("field-less packet structs (documented as placeholders in the sources) are judged for their id and empty round trip only");
     rep.assume("string contents are the stated boundary families, not all strings; compound text components are compared as NBT trees (key order and the bool->byte mapping are not significant)");
-    rep.finish()
 }
